@@ -14,6 +14,7 @@ variable {α : Type}
 issued before (its index exists in the stream's log; unknown streams are allowed — they get a 400). -/
 def InScope (c : Conn α) : Label α → Prop
   | .write _ _ ctxNew => ctxNew = false
+  | .wroute _ _ ctxNew => ctxNew = false
   | .post _ _ ver _ => ver.isNew = false
   | .get (.ok sid idx) _ _ => ∀ log, c.store sid = some log → idx < log.length
   | _ => True
@@ -872,27 +873,21 @@ theorem inv08_get {c : Conn α} (hw : Inv c) (h : Inv08 c) (hdr : Hdr) (ver : Ve
         split
         · exact inv08_statusEx hw h _ _ h.npos
         · rename_i items hitems
-          simp only [replayItems, hst, if_true] at hitems
-          split at hitems
-          · cases hitems
-          · cases hlog : c.store hdr.sid with
-            | none => rw [hlog] at hitems; cases hitems
-            | some log =>
-              rw [hlog] at hitems; simp at hitems; subst hitems
-              have hfn : hdr.from ≤ log.length ∧ ∀ i, hdr.from ≤ i → log[i]? ≠ some none := by
-                cases hdr with
-                | none =>
-                  refine ⟨by simp [Hdr.from], ?_⟩
-                  intro i _ hi
-                  exact (h.shape 0 log i hlog hi).2 rfl
-                | bad => exact absurd rfl ‹_›
-                | ok sid idx =>
-                  have := hsc log hlog
-                  refine ⟨by simp [Hdr.from]; omega, ?_⟩
-                  intro i hi hn
-                  have := (h.shape sid log i hlog hn).1
-                  simp [Hdr.from] at hi; omega
-              exact inv08_getGo hw h _ _ _ _ log hlog hfn.1 hfn.2 hnatt
+          obtain ⟨_, log, hlog, _, rfl⟩ := replayItems_some hst hitems
+          · have hfn : hdr.from ≤ log.length ∧ ∀ i, hdr.from ≤ i → log[i]? ≠ some none := by
+              cases hdr with
+              | none =>
+                refine ⟨by simp [Hdr.from], ?_⟩
+                intro i _ hi
+                exact (h.shape 0 log i hlog hi).2 rfl
+              | bad => exact absurd rfl ‹_›
+              | ok sid idx =>
+                have := hsc log hlog
+                refine ⟨by simp [Hdr.from]; omega, ?_⟩
+                intro i hi hn
+                have := (h.shape sid log i hlog hn).1
+                simp [Hdr.from] at hi; omega
+            exact inv08_getGo hw h _ _ _ _ log hlog hfn.1 hfn.2 hnatt
 
 /-! ### every label in scope -/
 
@@ -948,9 +943,246 @@ theorem step_cfg (c : Conn α) (l : Label α) : (step c l).cfg = c.cfg := by
         · split <;> simp [emit]
         · rfl
   | «end» => rfl
+  | evict sid n => rfl
+  | wroute msg ctx ctxNew =>
+    simp only [wrouteR]
+    split
+    · rfl
+    · split
+      · simp
+      · split <;> simp
+  | wdeliver i =>
+    simp only [wdeliverR]
+    split
+    · rfl
+    · split
+      · simp [writeTo]
+      · simp [orphanWrite]
+
+/-! ### pending writes -/
+
+theorem replayLoop_pendW (c : Conn α) (ex sid k : Nat) (items : List (Item α)) :
+    (replayLoop c ex sid k items).1.pendW = c.pendW := by
+  induction items generalizing c k with
+  | nil => rfl
+  | cons it rest ih =>
+    unfold replayLoop
+    split
+    · rw [ih]; rfl
+    · rfl
+
+/-- labels other than WROUTE / WDELIVER leave the pending writes alone -/
+theorem step_pendW_other (c : Conn α) (l : Label α) (h1 : ∀ msg ctx n, l ≠ .wroute msg ctx n) (h2 : ∀ i, l ≠ .wdeliver i) :
+    (step c l).pendW = c.pendW := by
+  cases l with
+  | post calls listen ver budget =>
+    show (post c calls listen ver budget).pendW = c.pendW
+    unfold post
+    split
+    · rfl
+    · split
+      · rfl
+      · rw [postNew_eq]
+        have : (postPrimed c (dedup calls) listen ver budget).pendW = c.pendW := by unfold postPrimed; split <;> rfl
+        split
+        · simp [cut, finish, this]
+        · exact this
+  | write msg ctx ctxNew =>
+    show (writeR c msg ctx ctxNew).1.pendW = c.pendW
+    unfold writeR
+    split
+    · rfl
+    · split
+      · simp
+      · split
+        · simp
+        · simp [writeTo]
+  | cut ex => rfl
+  | wfail ex => rfl
+  | get hdr ver budget =>
+    show (get c hdr ver budget).pendW = c.pendW
+    have hgo : ∀ sid frm items, (getGo c sid frm ver budget items).pendW = c.pendW := by
+      intro sid frm items
+      have b1 : (getOpen c sid frm budget).pendW = c.pendW := by unfold getOpen; split <;> rfl
+      have b2 := replayLoop_pendW (getOpen c sid frm budget) c.exs.length sid frm items
+      unfold getGo
+      split
+      · split
+        · simp [finish, b1, b2]
+        · split
+          · simp [finish, b1, b2]
+          · unfold attach; split <;> simp [cut, finish, b1, b2]
+      · simp [finish, b1, b2]
+    unfold get
+    split
+    · rfl
+    · split
+      · rfl
+      · split
+        · rfl
+        · split
+          · rfl
+          · exact hgo _ _ _
+  | sclose req retry =>
+    show (sclose c req retry).pendW = c.pendW
+    unfold sclose
+    split
+    · rfl
+    · split
+      · rfl
+      · split
+        · split <;> rfl
+        · rfl
+  | «end» => rfl
+  | evict sid n => rfl
+  | wroute msg ctx ctxNew => exact absurd rfl (h1 _ _ _)
+  | wdeliver i => exact absurd rfl (h2 _)
+
+/-- after a step the pending writes are old ones, or the one the step just routed -/
+theorem step_pendW (c : Conn α) (l : Label α) : ∀ pw ∈ (step c l).pendW,
+    pw ∈ c.pendW ∨ ∃ msg ctx ctxNew s, l = .wroute msg ctx ctxNew ∧ route c msg ctx = some s ∧ pw = ⟨msg, ctx, ctxNew, s.id⟩ := by
+  intro pw hp
+  by_cases h1 : ∀ msg ctx n, l ≠ .wroute msg ctx n
+  · by_cases h2 : ∀ i, l ≠ .wdeliver i
+    · rw [step_pendW_other c l h1 h2] at hp; exact Or.inl hp
+    · cases l with
+      | wdeliver i =>
+        have hp' : pw ∈ (wdeliverR c i).1.pendW := hp
+        unfold wdeliverR at hp'
+        split at hp'
+        · exact Or.inl hp'
+        · split at hp'
+          · simp [writeTo] at hp'; exact Or.inl (List.mem_of_mem_eraseIdx hp')
+          · simp [orphanWrite] at hp'; exact Or.inl (List.mem_of_mem_eraseIdx hp')
+      | post _ _ _ _ => exact absurd (by intros; simp) h2
+      | write _ _ _ => exact absurd (by intros; simp) h2
+      | cut _ => exact absurd (by intros; simp) h2
+      | wfail _ => exact absurd (by intros; simp) h2
+      | get _ _ _ => exact absurd (by intros; simp) h2
+      | sclose _ _ => exact absurd (by intros; simp) h2
+      | «end» => exact absurd (by intros; simp) h2
+      | evict _ _ => exact absurd (by intros; simp) h2
+      | wroute _ _ _ => exact absurd (by intros; simp) h2
+  · cases l with
+    | wroute msg ctx ctxNew =>
+      have hp' : pw ∈ (wrouteR c msg ctx ctxNew).1.pendW := hp
+      unfold wrouteR at hp'
+      split at hp'
+      · exact Or.inl hp'
+      · split at hp'
+        · simp at hp'; exact Or.inl hp'
+        · rename_i s hs
+          split at hp'
+          · simp at hp'; exact Or.inl hp'
+          · simp only [eraseResp_pendW] at hp'
+            rcases List.mem_append.mp hp' with h | h
+            · exact Or.inl h
+            · simp at h; exact Or.inr ⟨msg, ctx, ctxNew, s, rfl, hs, h⟩
+    | post _ _ _ _ => exact absurd (by intros; simp) h1
+    | write _ _ _ => exact absurd (by intros; simp) h1
+    | cut _ => exact absurd (by intros; simp) h1
+    | wfail _ => exact absurd (by intros; simp) h1
+    | get _ _ _ => exact absurd (by intros; simp) h1
+    | sclose _ _ => exact absurd (by intros; simp) h1
+    | «end» => exact absurd (by intros; simp) h1
+    | evict _ _ => exact absurd (by intros; simp) h1
+    | wdeliver _ => exact absurd (by intros; simp) h1
+
+/-- pending writes in the scope of C08: issued with a context before 2026-07-28 -/
+def PendScope (c : Conn α) : Prop := ∀ pw ∈ c.pendW, pw.ctxNew = false
+
+theorem pendScope_init (cfg : Cfg) : PendScope (init cfg : Conn α) := by intro pw h; simp [init] at h
+
+theorem pendScope_step {c : Conn α} (h : PendScope c) (l : Label α) (hsc : InScope c l) : PendScope (step c l) := by
+  intro pw hp
+  rcases step_pendW c l pw hp with h0 | ⟨msg, ctx, ctxNew, s, rfl, _, rfl⟩
+  · exact h pw h0
+  · exact hsc
+
+/-- the delivery section on a deleted stream object: the message only goes to the log -/
+theorem inv08_orphan {c : Conn α} (hw : Inv c) (h : Inv08 c) (pw : PendW α) (hnone : findStream pw.sid c.streams = none) :
+    Inv08 (orphanWrite c pw).1 := by
+  have hle : LogLE c.store (orphanWrite c pw).1.store := by
+    simp only [orphanWrite]; split
+    · exact logLE_appendLog _ _ _
+    · exact LogLE.refl _
+  have hpre : ∀ sid, ∃ more, ((orphanWrite c pw).1.store sid).getD [] = (c.store sid).getD [] ++ more := by
+    intro sid
+    cases hl : c.store sid with
+    | none => exact ⟨((orphanWrite c pw).1.store sid).getD [], by simp⟩
+    | some log => obtain ⟨more, hm⟩ := hle sid log hl; exact ⟨more, by simp [hm]⟩
+  refine ⟨h.npos, ?_, h.ex_lt, ?_, ?_⟩
+  · intro sid log i hl hi
+    simp only [orphanWrite] at hl
+    split at hl
+    · by_cases hk : sid = pw.sid
+      · subst hk
+        simp only [appendLog_same, Option.some.injEq] at hl
+        subst hl
+        by_cases hlt : i < ((c.store pw.sid).getD []).length
+        · rw [List.getElem?_append_left hlt] at hi
+          cases hc : c.store pw.sid with
+          | none => rw [hc] at hlt; simp at hlt
+          | some l0 => rw [hc] at hi; exact h.shape pw.sid l0 i hc (by simpa using hi)
+        · rw [List.getElem?_append_right (by omega)] at hi
+          have : i - ((c.store pw.sid).getD []).length = 0 := by
+            by_cases h0 : i - ((c.store pw.sid).getD []).length = 0
+            · exact h0
+            · rw [List.getElem?_eq_none (by simp; omega)] at hi; cases hi
+          rw [this] at hi; simp at hi
+      · rw [appendLog_other _ _ _ _ hk] at hl; exact h.shape sid log i hl hi
+    · exact h.shape sid log i hl hi
+  · intro j e he
+    exact segFrom_mono (hpre e.stream) _ _ _ (h.seg j e he)
+  · intro s hs ex e hat hop hj hex
+    obtain ⟨h1, h2⟩ := h.aligned s hs ex e hat hop hj hex
+    refine ⟨h1, ?_⟩
+    have hne : s.id ≠ pw.sid := by
+      intro he
+      have := findStream_of_mem hw.nodup hs
+      rw [he, hnone] at this; cases this
+    simp only [orphanWrite]
+    split
+    · rw [appendLog_other _ _ _ _ hne]; exact h2
+    · exact h2
+
+theorem inv08_pendW {c : Conn α} (h : Inv08 c) (l : List (PendW α)) : Inv08 ({ c with pendW := l } : Conn α) :=
+  ⟨h.npos, h.shape, h.ex_lt, h.seg, h.aligned⟩
+
+theorem inv08_wroute {c : Conn α} (hw : Inv c) (h : Inv08 c) (msg : Msg α) (ctx : Option Nat) (ctxNew : Bool) :
+    Inv08 (wrouteR c msg ctx ctxNew).1 := by
+  have herase : Inv08 (eraseResp c msg) :=
+    inv08_frame (c' := eraseResp c msg) hw h (by simp) (by simp) (by simp; exact ExSame.refl _) (by simp; exact StrSame.refl _)
+      (fun j e' he' hn => by simp at he'; rw [he'] at hn; cases hn)
+  unfold wrouteR
+  split
+  · exact h
+  · split
+    · exact herase
+    · split
+      · exact herase
+      · exact inv08_pendW herase _
+
+theorem inv08_wdeliver {c : Conn α} (hw : Inv c) (h : Inv08 c) (hst : c.cfg.hasStore = true) (hps : PendScope c) (i : Nat) :
+    Inv08 (wdeliverR c i).1 := by
+  unfold wdeliverR
+  split
+  · exact h
+  · rename_i pw hpw
+    have hmem : pw ∈ c.pendW := List.mem_of_getElem? hpw
+    have hnew := hps pw hmem
+    have hw1 : Inv ({ c with pendW := c.pendW.eraseIdx i } : Conn α) :=
+      inv_pendW hw _ (fun x hx => hw.pend_lt x (mem_eraseIdx hx))
+    have h1 : Inv08 ({ c with pendW := c.pendW.eraseIdx i } : Conn α) := inv08_pendW h _
+    split
+    · rename_i s hs
+      rw [hnew]
+      exact inv08_writeTo hw1 h1 (findStream_some hs).1 _ _ hst
+    · rename_i hs
+      exact inv08_orphan hw1 h1 pw hs
 
 theorem inv08_step {c : Conn α} (hw : Inv c) (h : Inv08 c) (hst : c.cfg.hasStore = true) (l : Label α)
-    (hsc : InScope c l) : Inv08 (step c l) := by
+    (hsc : InScope c l) (hps : PendScope c) : Inv08 (step c l) := by
   unfold step stepR
   cases l with
   | post calls listen ver budget => exact inv08_post hw h _ _ _ _ hst hsc
@@ -962,16 +1194,19 @@ theorem inv08_step {c : Conn α} (hw : Inv c) (h : Inv08 c) (hst : c.cfg.hasStor
   | get hdr ver budget => exact inv08_get hw h _ _ _ hst hsc
   | sclose req retry => exact inv08_sclose hw h _ _
   | «end» => exact ⟨h.npos, h.shape, h.ex_lt, h.seg, h.aligned⟩
+  | evict sid n => exact ⟨h.npos, h.shape, h.ex_lt, h.seg, h.aligned⟩
+  | wroute msg ctx ctxNew => exact inv08_wroute hw h _ _ _
+  | wdeliver i => exact inv08_wdeliver hw h hst hps i
 
 theorem inv08_run (cfg : Cfg) (hst : cfg.hasStore = true) (ls : List (Label α)) (hsc : InScopeRun (init cfg) ls) :
     Inv08 (run (init cfg) ls) := by
-  suffices ∀ c : Conn α, Inv c → Inv08 c → c.cfg.hasStore = true → InScopeRun c ls → Inv08 (run c ls) from
-    this _ (inv_init cfg) (inv08_init cfg) hst hsc
+  suffices ∀ c : Conn α, Inv c → Inv08 c → PendScope c → c.cfg.hasStore = true → InScopeRun c ls → Inv08 (run c ls) from
+    this _ (inv_init cfg) (inv08_init cfg) (pendScope_init cfg) hst hsc
   clear hsc
   induction ls with
-  | nil => intro c _ h _ _; exact h
+  | nil => intro c _ h _ _ _; exact h
   | cons l t ih =>
-    intro c hw h hs hsc
-    exact ih (step c l) (inv_step hw l) (inv08_step hw h hs l hsc.1) (by rw [step_cfg]; exact hs) hsc.2
+    intro c hw h hps hs hsc
+    exact ih (step c l) (inv_step hw l) (inv08_step hw h hs l hsc.1 hps) (pendScope_step hps l hsc.1) (by rw [step_cfg]; exact hs) hsc.2
 
 end Resume
